@@ -114,6 +114,7 @@ def _self_for(kind: str, cls: str, table: list[int], queries: list) -> Record:
                     state["rows"] = state.get("rows", [])[n:]
                     return out
                 cur.__dict__.update(execute=execute, fetchall=fetchall, fetchmany=fetchmany)
+                cur.__dict__["__iter__"] = fetchall
                 return cur
             def execute(sql, params=()):
                 return cursor().__dict__["execute"](sql, params)
@@ -187,6 +188,8 @@ def evaluate_stream_ticks(repo) -> list[dict]:
                     bad = bad or f"with {n} stored ticks (page size {page}) the stream does not terminate"
                     continue
                 raise AnchorError(f"cannot evaluate {cls}.stream_ticks on the model table: {e}")
+            except (TypeError, AttributeError, KeyError, IndexError, ValueError) as e:
+                raise AnchorError(f"cannot evaluate {cls}.stream_ticks on the model table ({type(e).__name__}: {e}): a driver call shape the model does not know")
             if got != table:
                 missing = [x for x in table if x not in got]
                 dup = sorted({x for x in got if got.count(x) > 1})
